@@ -133,6 +133,7 @@ class Ctx:
             path = f if os.path.isabs(f) else os.path.join(LEAN, f)
             src = strip_lean_comments(open(path).read())
             for ln, line in enumerate(src.splitlines(), 1):
+                line = re.sub(r'"(?:[^"\\]|\\.)*"', '""', line)     # words inside string literals are data
                 if FORBIDDEN.search(line):
                     bad.append(f"{f}:{ln}: {line.strip()[:100]}")
         return bad
